@@ -7,15 +7,17 @@ import (
 	"github.com/verily-src/fhirpath-go/internal/verifrt"
 )
 
-// item kinds: 0 Integer, 1 String, 2 FHIR integer element, 3 complex element (HumanName with a symbolic family)
+// item kinds: 0 Integer, 1 String, 2 FHIR integer element, 3 complex element (HumanName with a symbolic family),
+// 4 Date of year or month precision (two dates of different precision that agree on the year have no answer),
+// 5 FHIR Quantity element without a value (no System value: compared structurally)
 type verifItemRef struct {
 	kind int
 	i    int
 	s    string
 }
 
-func verifCollItem(label string) (any, verifItemRef) {
-	switch k := verifrt.Choose(label+".kind", 4); k {
+func verifCollItem(label string, kinds []int) (any, verifItemRef) {
+	switch k := kinds[verifrt.Choose(label+".kind", len(kinds))]; k {
 	case 0:
 		v := verifrt.NondetIntRange(label+".i", 0, 2)
 		return Integer(v), verifItemRef{kind: 0, i: v}
@@ -25,14 +27,30 @@ func verifCollItem(label string) (any, verifItemRef) {
 	case 2:
 		v := verifrt.NondetIntRange(label+".fi", 0, 2)
 		return &dtpb.Integer{Value: int32(v)}, verifItemRef{kind: 0, i: v}
+	case 4:
+		text := []string{"2020", "2021", "2020-01", "2020-02", "2021-01"}[verifrt.Choose(label+".date", 5)]
+		return MustParseDate(text), verifItemRef{kind: 4, s: text}
+	case 5:
+		code := []string{"mg", "kg"}[verifrt.Choose(label+".code", 2)]
+		return &dtpb.Quantity{Code: &dtpb.Code{Value: code}}, verifItemRef{kind: 5, s: code}
 	default:
 		s := verifrt.NondetString(label+".fam", 1)
 		return &dtpb.HumanName{Family: &dtpb.String{Value: s}}, verifItemRef{kind: 3, s: s}
 	}
 }
 
-func (a verifItemRef) equal(b verifItemRef) bool {
-	return a.kind == b.kind && a.i == b.i && a.s == b.s
+// compare: 1 equal, 0 unequal, 2 no answer
+func (a verifItemRef) compare(b verifItemRef) int {
+	if a.kind == 4 && b.kind == 4 && len(a.s) != len(b.s) {
+		if a.s[:4] == b.s[:4] {
+			return 2 // the shared components (the year) agree, the precisions differ
+		}
+		return 0
+	}
+	if a.kind == b.kind && a.i == b.i && a.s == b.s {
+		return 1
+	}
+	return 0
 }
 
 // C05-E3: two collections are equal iff they have the same length and every corresponding pair of items is equal
@@ -43,21 +61,47 @@ func VerifHarness_C05_CollectionEquality() {
 	if verifrt.NondetBool("differentLength") {
 		m = 1 + verifrt.Choose("m", verifrt.Bound(2, 3))
 	}
+	verifCollectionEquality(n, m, []int{0, 1, 2, 3})
+}
+
+// C05-E3 with pairs that have no answer (dates of different precision) and items without a System value (a Quantity
+// element without a value) among the pairs: an unequal pair decides wherever it stands, and x = x.
+func VerifHarness_C05_CollectionEqualityThreeValued() {
+	n := verifrt.Bound(2, 3)
+	verifCollectionEquality(n, n, []int{0, 4, 5})
+}
+
+func verifCollectionEquality(n, m int, kinds []int) {
 	var a, b Collection
 	var ra, rb []verifItemRef
 	for i := 0; i < n; i++ {
-		v, r := verifCollItem("a")
+		v, r := verifCollItem("a", kinds)
 		a, ra = append(a, v), append(ra, r)
 	}
 	for i := 0; i < m; i++ {
-		v, r := verifCollItem("b")
+		v, r := verifCollItem("b", kinds)
 		b, rb = append(b, v), append(rb, r)
 	}
-	want := n == m
-	for i := 0; want && i < n; i++ {
-		want = ra[i].equal(rb[i])
+	// an unequal pair decides wherever it stands; otherwise a pair without an answer leaves the comparison open
+	want := 1
+	if n != m {
+		want = 0
+	}
+	for i := 0; n == m && i < n; i++ {
+		switch ra[i].compare(rb[i]) {
+		case 0:
+			want = 0
+		case 2:
+			if want == 1 {
+				want = 2
+			}
+		}
 	}
 	got, has := a.TryEqual(b)
-	verifrt.Assert(has && got == want, "collections-equal-iff-every-pair-equal")
+	if want == 2 {
+		verifrt.Assert(!has, "collections-with-an-unanswerable-pair-and-no-unequal-pair-have-no-answer")
+	} else {
+		verifrt.Assert(has && got == (want == 1), "collections-equal-iff-every-pair-equal")
+	}
 	verifrt.Reach("end")
 }
